@@ -213,7 +213,7 @@ pub fn attribute(kind: &str, out: &mut [&'static str; 6]) -> usize {
         "order-dependence" => push("C08", &mut n),
         "panic-not-propagated" => push("C11", &mut n),
         "traced-unlinked" | "alloc-unlinked" => push("C14", &mut n),
-        "revisit" => push("C15", &mut n),
+        "revisit" | "hang" => push("C15", &mut n),
         _ => push("C02", &mut n),
     }
     if script {
